@@ -18,7 +18,7 @@ from harness.lib import sym2coq as sc
 from harness.lib.core import JOBS, VERIF, source_sha
 
 LEVEL = 'proof'
-IMPORTS = 'Base.PyData Base.Expr Base.Interp Base.Stmts C05.Model C05.ToCs C05.Check'
+IMPORTS = 'Base.PyData Base.Expr Base.Interp Base.Stmts C05.Model C05.ToCs C05.Access C05.Check'
 
 TAGS = {
     1: 'builder result (node order / adjacency order / errors / predecessors of output) differs from model',
@@ -30,6 +30,7 @@ TAGS = {
     7: 'from_dict / == differ from model',
     8: 'subs differs from model',
     9: 'to_compartmental_system differs from model (C05/ToCs.v)',
+    10: 'get_compartment_outflows / _inflows / get_bidirectionals / get_n_connected / len differ from model (C05/Access.v)',
     11: 'compartment order is not a permutation of the compartments',
     12: 'names / amounts / inputs / eqs / matrix do not share one compartment order',
     13: 'eqs are not M*A + u entrywise',
@@ -42,7 +43,7 @@ TAGS = {
     21: 'subs changed the compartment order (compartment_names)',
     20: 'to_compartmental_system(names, eqs) of a linear system with distinct rates lost or changed a flow / input',
 }
-CORR = (1, 2, 3, 4, 5, 6, 7, 8, 9)
+CORR = (1, 2, 3, 4, 5, 6, 7, 8, 9, 10)
 # oracle tag -> (correspondence tags that must be absent for the model to explain the failure,
 #                guard tag that must be present, finding id)
 # C05-SELF-FLOW (34eef54) and C05-EQ-RAISES-NO-DOSE (876afb2) are fixed in /repo: open_finding() is None for them,
@@ -612,6 +613,16 @@ def observe(spec, prng, perturb=None):
         mp = ct.lst([ct.pair(ex.names.p(k), ex.expr(Expr(v))) for k, v in spec['subs'].items()])
         subs_t = f"(Some ({mp}, {ex.graph(cs3._g)}, {ct.lst([ex.name(x) for x in cs3.compartment_names])}))"
         info['subs'] = True
+    # flow accessors
+    fl = lambda pairs: ct.lst([ct.pair(ex.node(v), ex.expr(r)) for v, r in pairs])
+    acc_rows = []
+    for nd in g.nodes:
+        if isinstance(nd, m.Output):
+            acc_rows.append(ct.tup("Out", "[]", fl(cs.get_compartment_inflows(nd)), "[]", ct.nat(0)))
+        else:
+            acc_rows.append(ct.tup(ex.node(nd), fl(cs.get_compartment_outflows(nd)), fl(cs.get_compartment_inflows(nd)),
+                                   ct.lst([ex.node(x) for x in cs.get_bidirectionals(nd)]), ct.nat(cs.get_n_connected(nd))))
+    access_t = ct.pair(ct.lst(acc_rows), ct.nat(len(cs)))
     reb_t = "None"
     tocs_t = "None"
     if spec.get('rebuild') and n and not spec.get('t'):   # to_compartmental_system hard-codes the idv t
@@ -646,7 +657,7 @@ def observe(spec, prng, perturb=None):
     body = ("(mkCase " + ops_t + "\n " + errs_t + "\n " + ex.expr(cs.t) + "\n " + graph_t + "\n " + preds + " " + ct.opt(central)
             + " " + ct.opt(dosing) + "\n " + order_t + " " + names_t + "\n " + amounts_t + " " + inputs_t + "\n " + mat_t
             + "\n " + eqs_t + "\n " + dict_t + "\n " + rt_t + " " + rt_eq + "\n " + other_t + "\n " + subs_t + "\n " + reb_t
-            + "\n " + tocs_t + "\n " + envs + ")")
+            + "\n " + tocs_t + "\n " + access_t + "\n " + envs + ")")
     lets = ''.join(f"let {v} := {t} in\n " for v, t in ex.cdefs)
     return "(" + lets + body + ")", info
 
